@@ -330,8 +330,6 @@ type scenarioRun struct {
 func (r *scenarioRun) fail(kind string, probe batchRef, want, got, alt result) {
 	var key string
 	switch {
-	case got == alt && got != want:
-		key = keyMod
 	case got.Kind == "error":
 		key = "C29:kfake:error-code"
 	case want.Kind == "duplicate" || got.Kind == "duplicate":
@@ -342,6 +340,13 @@ func (r *scenarioRun) fail(kind string, probe batchRef, want, got, alt result) {
 		key = "C29:kfake:next-rejected"
 	default:
 		key = "C29:kfake:out-of-order-accepted"
+	}
+	if got == alt && got != want {
+		// Candidate for the modulus class: the answer is what a window
+		// computing (s+n) mod (2^31-1) gives. It is filed there only if the
+		// function-level harness (which can test the window state for
+		// consistency) found that class too; otherwise under the key above.
+		key = keyMod + "|" + key
 	}
 	c := protoCase{Part: "kfake-protocol", Chain: append([]batchRef(nil), r.chain...), Probe: probe, Kind: kind, Expected: want, Got: got}
 	var cs []string
@@ -906,7 +911,14 @@ func main() {
 	}
 	for _, v := range st.viol {
 		a, _ := json.Marshal(v.c)
-		addViol(v.key, "kfake-protocol", v.what, v.count, a)
+		key := v.key
+		if cand, fallback, ok := strings.Cut(key, "|"); ok {
+			key = fallback
+			if viol[cand] != nil && viol[cand].art["kfake-window"] != nil {
+				key = cand
+			}
+		}
+		addViol(key, "kfake-protocol", v.what, v.count, a)
 	}
 
 	r.Set("bound_completed", map[string]any{
